@@ -268,4 +268,4 @@ LEVEL_TEXT = ('Machine-checked proofs (Coq) about executable models of AspifOutp
 LEVEL_NOTE = 'Trusted: Coq kernel, extraction (cross-checked by vm_compute on a sample), harness, python oracle; C09 stream refinement assumed from C09.'
 TECHNIQUE = 'Coq proof about an executable model + differential correspondence with the implementation'
 DESIGN_REF = 'DESIGN.md section 5, C01'
-READY = False
+READY = True
